@@ -927,6 +927,51 @@ def gen_tables(repo):
     L.append(f"def treeImplicitTypeGuard : Bool := {'true' if 'par_implicit_type in IMP_TYPE_LOOKUP' in tt_src else 'false'}")
     L.append("/-- `to_tree`: the sub-tree root is compared through the string forms of its *parts* -/")
     L.append(f"def treeFromPathViaParts : Bool := {'true' if 'tuple((str(i) for i in DataPath(*from_path).parts))' in tt_src else 'false'}")
+    # `Data.__init__`: which values are filterable at all
+    data_src = open(os.path.join(repo, "valida", "data.py")).read()
+    data_tree = ast.parse(data_src)
+    data_cls = find_class(data_tree, "Data")
+    data_init = find_method(data_cls, "__init__") if data_cls is not None else None
+    if data_init is None:
+        raise ExtractError("Data.__init__ not found")
+    body = strip_doc(data_init.body)
+    EXC = {"TypeError": ".typeError", "ValueError": ".valueError"}
+
+    def raised(stmts):
+        if len(stmts) == 1 and isinstance(stmts[0], ast.Raise):
+            r = stmts[0].exc
+            nm = r.func.id if isinstance(r, ast.Call) and isinstance(r.func, ast.Name) else getattr(r, "id", None)
+            return EXC.get(nm)
+        return None
+
+    def not_isinstance(t):
+        if (isinstance(t, ast.UnaryOp) and isinstance(t.op, ast.Not) and isinstance(t.operand, ast.Call)
+                and isinstance(t.operand.func, ast.Name) and t.operand.func.id == "isinstance" and len(t.operand.args) == 2
+                and isinstance(t.operand.args[0], ast.Name) and t.operand.args[0].id == "data"):
+            ty = t.operand.args[1]
+            return ty.elts if isinstance(ty, ast.Tuple) else [ty]
+        return None
+
+    def not_data(t):
+        return isinstance(t, ast.UnaryOp) and isinstance(t.op, ast.Not) and isinstance(t.operand, ast.Name) and t.operand.id == "data"
+    g_types = g_texc = g_eexc = None
+    if body and isinstance(body[0], ast.If) and not body[0].orelse:
+        t0 = body[0].test
+        if isinstance(t0, ast.BoolOp) and isinstance(t0.op, ast.Or) and len(t0.values) == 2 and not_isinstance(t0.values[0]) and not_data(t0.values[1]):
+            g_types, g_texc = not_isinstance(t0.values[0]), raised(body[0].body)
+            g_eexc = g_texc
+        elif not_isinstance(t0):
+            g_types, g_texc = not_isinstance(t0), raised(body[0].body)
+            if len(body) > 1 and isinstance(body[1], ast.If) and not body[1].orelse and not_data(body[1].test):
+                g_eexc = raised(body[1].body)
+                if g_eexc is None:
+                    raise ExtractError("Data.__init__: the empty-data guard does not raise TypeError / ValueError")
+    if g_types is None or g_texc is None:
+        raise ExtractError("Data.__init__: the guard on the data's type was not recognised")
+    L.append("/-- `Data.__init__`: the container types accepted, the exception for anything else, the exception for an empty container (if refused) -/")
+    L.append("def dataGuardTypes : List PyType := " + lean_list(type_expr(x, "Data.__init__") for x in g_types))
+    L.append(f"def dataGuardTypeExc : Exc := {g_texc}")
+    L.append("def dataGuardEmptyExc : Option Exc := " + (f"some {g_eexc}" if g_eexc else "none"))
     # `DataPath.__init__`: what a plain key / index is coerced to (the isinstance chain over the parts)
     dp_cls = find_class(dtree, "DataPath")
     dp_init = find_method(dp_cls, "__init__") if dp_cls is not None else None
